@@ -9,6 +9,16 @@ def main(path):
     print("property:", prop)
     print("signature:", rec.get("signature"))
     print("recorded:", rec.get("msg"))
+    # same global RNG state as in the run that recorded it (core._seeded_call seeds from the item's content)
+    item = next((rec[k] for k in ("behaviour", "history", "case", "scenario", "group", "beh") if k in rec), None)
+    if item is not None:
+        import os
+        import zlib
+
+        import torch
+
+        torch.manual_seed(1000003 * (int(rec.get("seed", os.environ.get("VERIF_SEED", "0"))) + 1)
+                          + zlib.crc32(json.dumps(item, sort_keys=True, default=str).encode()))
     if "behaviour" in rec:
         from .actions import run_behaviour
 
